@@ -460,7 +460,7 @@ func parseClause(c *Contract, word, rest, src string) error {
 func parseModSpec(s string) (ModSpec, error) {
 	w, r := splitWord(s)
 	switch w {
-	case "heap", "all", "fresh":
+	case "heap", "all", "fresh", "everything":
 		return ModSpec{Kind: w}, nil
 	case "ghost":
 		var cond ast.Expr
